@@ -260,6 +260,7 @@ def check_range_sample_independent(prog: Program, rep, sr, rule: str) -> None:
                   ('the sample exactly at the record distance', 20, 15, 20, 10, 20),
                   ('the sample several whole steps beyond the record distance', 45, 15, 20, 10, None)]
     outcomes: Dict[str, Dict[str, object]] = {}
+    after_next: Dict[str, list] = {}
     for gname, qx, px, nrd, rs, _want in geometries:
         for label, mask, ts, pending in requests:
             ev = Evaluator(prog)
@@ -280,6 +281,8 @@ def check_range_sample_independent(prog: Program, rep, sr, rule: str) -> None:
             for path_, lf in leaves(tree):
                 if lf.kind == 'raise':
                     continue
+                if label == requests[0][0] and lf.kind == 'return' and isinstance(lf.value, Inst):
+                    after_next.setdefault(gname, []).append(lf.state.heap[flt.oid].get('next_record_distance'))
                 # guards on symbols other than the debug switch make the outcome depend on values the sample point leaves open
                 sig: object = None
                 if lf.kind == 'return':
@@ -319,6 +322,17 @@ def check_range_sample_independent(prog: Program, rep, sr, rule: str) -> None:
             if not ok_x:
                 problems.append(f'{gname}: the plain range card gets a row at x = {x_row!r}, not at a record distance '
                                 f'({want_x if want_x is not None else "20, 30 or 40"})')
+        # the schedule keeps up with the projectile: once the row is handed out, the next record distance lies beyond the
+        # sample (a schedule that lags behind makes every later row an extrapolation backwards from a later sample, and the
+        # rows then differ between a fine and a coarse request)
+        for nx in after_next.get(gname, []):
+            if isinstance(nx, Scalar) and nx.rf.is_const():
+                if not nx.rf.const_value() > qx:
+                    problems.append(f'{gname} (x = {qx}, record distance due {nrd}, step {rs}): after the row is handed out the '
+                                    f'next record distance is {nx.rf.const_value()}, not beyond the sample - the schedule lags behind '
+                                    f'the projectile')
+            else:
+                raise AnalysisError(f'should_record: next record distance after a row ({gname}) is {nx!r}: not readable')
         for label, alts in per.items():
             for sig in alts:
                 if not _same_sig(sig, ref):
